@@ -5,6 +5,16 @@
 #include "vcommon.h"
 
 GHOST uint64_t G;  // ghost coefficient index, universally quantified by the solver
+GHOST uint64_t GT; // ghost image of G under the automorphism index map: GT == G*GP mod 2*GNN
+GHOST int64_t GP;   // ghost copy of the automorphism exponent p
+GHOST uint64_t GNN; // ghost copy of the dimension nn
+GHOST _Bool GREL;   // the relation GT == AUT_E(G, GP, GNN), evaluated ONCE by the harness (SET_AUT_GHOSTS): contracts
+                    // require GREL && p == GP && nn == GNN, so that a caller's proof hands the relation on as a boolean
+                    // instead of re-proving the equality of two multiplier circuits (beyond SAT even at 17 bits)
+// only the residue mod 2nn <= 2^17 matters: both factors are first reduced mod 2^17
+#define AUT_E(g, p, nn) ((((uint64_t)(g) & 0x1FFFFu) * ((uint64_t)(p) & 0x1FFFFu)) & (2 * (nn)-1))
+#define SET_AUT_GHOSTS() do { G = nondet_u64(); GT = nondet_u64(); GP = nondet_i64(); GNN = nondet_u64(); GREL = (GT == AUT_E(G, GP, GNN)); } while (0)
+#define AUT_REL(p, nn) (GREL && (p) == GP && (nn) == GNN)
 
 void znx_add_i64_ref(uint64_t nn, int64_t* res, const int64_t* a, const int64_t* b);
 void znx_sub_i64_ref(uint64_t nn, int64_t* res, const int64_t* a, const int64_t* b);
